@@ -138,7 +138,7 @@ def file_source(data: bytes) -> Obj:
             st["pos"] = len(data) + off
         return st["pos"]
 
-    return Obj(None, __kind__="file", read=read, seek=seek, tell=lambda: st["pos"], __state__=st)
+    return Obj(None, __kind__="file", read=read, seek=seek, tell=lambda: st["pos"], __state__=st, __size__=len(data))
 
 
 def socket_source(fragments, stays_open: bool = False) -> Obj:
@@ -161,7 +161,7 @@ def socket_source(fragments, stays_open: bool = False) -> Obj:
         frs[st["i"]] = f[n:]
         return f[:n]
 
-    return Obj(None, __kind__="socket", recv=recv, __state__=st)
+    return Obj(None, __kind__="socket", recv=recv, __state__=st, __size__=sum(len(f) for f in frs))
 
 
 def source_externals() -> dict:
